@@ -366,6 +366,34 @@ static void run_roundtrip(int which /*1 builtin,2 isal,3 both*/)
         }
         ctx_close(&x);
     }
+    /* objects of several MiB (sizes and offsets beyond 16 bits / near the 32-bit int the front end computes with): one stripe
+     * per backend, compared with the model in ctx_open, decoded with data lost.  One shard per configuration. */
+    {
+        static const cfg_t big[] = { { EC_BACKEND_LIBERASURECODE_RS_VAND, 4, 2, 2, 0, CHKSUM_CRC32 }, { EC_BACKEND_FLAT_XOR_HD, 10, 5, 3, 0, CHKSUM_CRC32 }, { EC_BACKEND_ISA_L_RS_VAND, 4, 2, 2, 0, CHKSUM_NONE },
+                                     { EC_BACKEND_LIBERASURECODE_RS_VAND, 2, 1, 1, 0, CHKSUM_NONE }, { EC_BACKEND_JERASURE_RS_CAUCHY, 3, 2, 2, 0, CHKSUM_CRC32 }, { EC_BACKEND_LIBPHAZR, 4, 2, 1, 0, CHKSUM_CRC32 },
+                                     { EC_BACKEND_SHSS, 4, 2, 2, 0, CHKSUM_CRC32 }, { EC_BACKEND_FLAT_XOR_HD, 6, 6, 4, 0, CHKSUM_NONE } };
+        for (size_t bi = 0; bi < sizeof big / sizeof big[0]; bi++) {
+            cfg_t c = big[bi];
+            if ((int)(bi % (size_t)(MO.nshards > 0 ? MO.nshards : 1)) != MO.shard) continue;
+            if (!(which & 2) && (c.be == EC_BACKEND_ISA_L_RS_VAND || c.be == EC_BACKEND_ISA_L_RS_CAUCHY)) continue;
+            if (!liberasurecode_backend_available((ec_backend_id_t)c.be)) continue;
+            uint64_t lens[1] = { MO.thorough ? 48ull * 1048576 + 5 : 4ull * 1048576 + 3 }; int kinds[1] = { DATA_RANDOM };
+            if (c.k == 2) lens[0] = MO.thorough ? 96ull * 1048576 + 1 : 16ull * 1048576 + 1;       /* 8 MiB (thorough: 48 MiB) per fragment */
+            ctx_t x;
+            if (ctx_open(&x, &c, lens, kinds, 1) == 0) {
+                int n = cfg_n(&c); uint32_t full = (1u << n) - 1;
+                uint32_t sets[3] = { 1u, 1u << c.k, cfg_tol(&c) >= 2 ? (1u | 1u << (n - 1)) : 2u % full };
+                for (int e = 0; e < 3; e++) {
+                    if (!mon_case_all("%s|large-object|len=%llu|E=0x%x", x.ck, (unsigned long long)lens[0], sets[e])) continue;
+                    check_decode(&x, 0, full & ~sets[e], e == 1 ? 3 : 0, e & 1, 1, "big");
+                    mon_count("large_object_decodes", 1);
+                    mon_distinct("nontrivial", mon_hash_u64(sets[e], mon_hash_str(x.ck, 4040)));
+                    mon_end();
+                }
+            }
+            ctx_close(&x);
+        }
+    }
 }
 
 /* ================================================================ C02 */
@@ -880,6 +908,25 @@ static void run_needed(int which)
                     check_needed(&x, perm, nr, perm + nr, nx, 0);
                     mon_count("queries_beyond_tolerance", 1);
                     mon_end();
+                }
+                /* a list entry that is not a fragment of the stripe (k+m, k+m+1, 31): "an error rather than a wrong list", every
+                 * time it is asked */
+                if (b % 6 == 0 && n < 31) {
+                    int R2[4] = { perm[0], -1, -1, -1 }, X2[4] = { -1, -1, -1, -1 }, nr2 = 1, nx2 = 0;
+                    int bad = b % 18 == 0 ? n : b % 18 == 6 ? (n + 1 <= 31 ? n + 1 : n) : 31;
+                    if (b % 12 == 0) R2[nr2++] = bad; else X2[nx2++] = bad;
+                    for (int rep = 0; rep < 2; rep++) if (mon_case("%s|index-beyond-stripe|R=[%d%s]|X=[%s]|ask#%d", x.ck, R2[0], nr2 > 1 ? ",bad" : "", nx2 ? "bad" : "", rep)) {
+                        int *out = g_alloc(sizeof(int) * (size_t)(n + 1), G_END);
+                        for (int i = 0; i <= n; i++) out[i] = 0x7f7f7f7f;
+                        int rc = liberasurecode_fragments_needed(x.desc, R2, X2, out);
+                        mon_count("evaluations", 1); mon_count("queries_with_index_beyond_stripe", 1);
+                        if (rc > 0) mon_viol(PROP, "needed-positive-rc", "fragments_needed returned %d", rc);
+                        if (rc == 0) { int len = -1; for (int i = 0; i <= n; i++) if (out[i] == -1) { len = i; break; }
+                                       if (len < 0) mon_viol(PROP, "needed-not-terminated", "query naming fragment %d of a %d-fragment stripe answered 0 without a terminated list", bad, n);
+                                       else for (int i = 0; i < len; i++) if (out[i] < 0 || out[i] >= n || out[i] == R2[0]) { mon_viol(PROP, "needed-out-of-range", "query naming fragment %d answered 0 with index %d in the list", bad, out[i]); break; } }
+                        g_free(out);
+                        mon_end();
+                    }
                 }
             }
             mon_count0("configs", 1);
